@@ -46,8 +46,8 @@ type wsCfg struct {
 	Enc      string `json:"enc"`      // "on": the SP has a certificate and registers its metadata as published;
 	//                                   "off": no certificate (unsigned requests) or, when the certificate is needed for
 	//                                   request signing, the use="encryption" descriptor is removed from the published XML
-	IdpKey string `json:"idpkey"` // "rsa-key" (IdentityProvider.Key) | "rsa-signer" | "ecdsa-signer" (IdentityProvider.Signer)
-	Hash   string `json:"hash"`   // "default" (field left empty) | "sha1" | "sha256" | "sha384" | "sha512"
+	IdpKey string `json:"idpkey"`          // "rsa-key" (IdentityProvider.Key) | "rsa-signer" | "ecdsa-signer" (IdentityProvider.Signer)
+	Hash   string `json:"hash"`            // "default" (field left empty) | "sha1" | "sha256" | "sha384" | "sha512"
 	MdAge  string `json:"mdage,omitempty"` // "stale": both metadata documents were published three days ago (validUntil has passed)
 }
 
@@ -778,13 +778,14 @@ func wsElBytes(el *etree.Element) []byte {
 // wsSessionFor places value at the position; every other field holds a benign constant.
 func wsSessionFor(pos, value string) *saml.Session {
 	s := &saml.Session{
-		ID:                    "sess-id-1",
-		CreateTime:            wsNow.Add(-time.Minute),
-		ExpireTime:            wsNow.Add(time.Hour),
-		Index:                 "idx-benign",
-		NameID:                "nameid-benign",
-		SubjectID:             "subject-benign",
-		Groups:                []string{"group-a", "group-b"},
+		ID:         "sess-id-1",
+		CreateTime: wsNow.Add(-time.Minute),
+		ExpireTime: wsNow.Add(time.Hour),
+		Index:      "idx-benign",
+		NameID:     "nameid-benign",
+		SubjectID:  "subject-benign",
+		// a list, not a set: the same group twice stays twice
+		Groups:                []string{"group-a", "group-b", "group-a"},
 		UserName:              "user-benign",
 		UserEmail:             "mail-benign@example.com",
 		UserCommonName:        "cn-benign",
@@ -814,7 +815,7 @@ func wsSessionFor(pos, value string) *saml.Session {
 	case "UserScopedAffiliation":
 		s.UserScopedAffiliation = value
 	case "Group":
-		s.Groups = []string{"group-a", value, "group-b"}
+		s.Groups = []string{"group-a", value, "group-b", value}
 	case "CustomName":
 		s.CustomAttributes[0].Name = value
 	case "CustomFriendlyName":
